@@ -290,7 +290,7 @@ def check_model(text, rng, want=6, tier="quick", work=None):
             seen = set()
             for (k, fname, n, slot, ga, gg, val), label in zip(bads, cf):
                 key = (fname, n if fname != "rhs" else ref.derivs[n], label)
-                root = n if fname != "rhs" else ref.derivs[n]
+                root = ref.derivs[n] if fname in ("rhs", "explicit_euler", "generalized_rush_larsen") else n
                 if (fname, root) in seen:
                     continue
                 seen.add((fname, root))
